@@ -537,9 +537,7 @@ example : ∃ N, (∀ k, Op.launch k ∈ demoOps →
     calls), with **any** pattern of CU refusals (`fails`), any grid size and any positive number of CUs:
     no work-group is offered twice, none outside the grid, every placement names an existing CU; and when
     the loop ends because `HasNext` is false, the offered work-groups are a permutation of
-    `0 … numWG−1` — each exactly once. (The loop never ends "stuck" when the refusals are finitely many:
-    checked on the real code and the model by the `c09 part` correspondence and the oracle
-    `C09.partition.conserves`.) -/
+    `0 … numWG−1` — each exactly once. -/
 theorem partition_conserves (numWG n fuel : Nat) (fails : List Bool) (hn : 0 < n) :
     (wgsOf (Part.run fuel (Part.start numWG n) fails []).1).Nodup ∧
     (∀ w ∈ wgsOf (Part.run fuel (Part.start numWG n) fails []).1, w < numWG) ∧
@@ -547,6 +545,21 @@ theorem partition_conserves (numWG n fuel : Nat) (fails : List Bool) (hn : 0 < n
     ((Part.run fuel (Part.start numWG n) fails []).2 = false →
       (wgsOf (Part.run fuel (Part.start numWG n) fails []).1).Perm (List.range numWG)) :=
   part_conserves numWG n fuel fails hn
+
+/-- **`partition_offers_every_group`** (the loop does not get stuck). When the CUs refuse only finitely
+    often (`countT fails` refusals, in any positions), `numWG + countT fails` calls of `Next` suffice:
+    every call places a work-group or uses up a refusal (while groups are left, some partition can
+    offer one to its own CU and the loop of `Next` visits every partition). The loop therefore ends
+    with `HasNext = false`, and the work-groups offered are exactly `0 … numWG−1`, each once. -/
+theorem partition_offers_every_group (numWG n fuel : Nat) (fails : List Bool) (hn : 0 < n)
+    (hfuel : numWG + countT fails ≤ fuel) :
+    (Part.run fuel (Part.start numWG n) fails []).2 = false ∧
+    (wgsOf (Part.run fuel (Part.start numWG n) fails []).1).Perm (List.range numWG) :=
+  ⟨part_never_stuck numWG n fuel fails hn hfuel,
+   (part_conserves numWG n fuel fails hn).2.2.2 (part_never_stuck numWG n fuel fails hn hfuel)⟩
+
+example : countT [true, true, false, true] = 3 ∧
+    wgsOf (Part.run 8 (Part.start 5 4) [true, true, false, true] []).1 = [4, 2, 0, 3, 1] := by decide
 
 /-- 5 work-groups on 4 CUs, the first, second and fourth reservation refused: CU 2 is served first, CU 1
     takes work-group 2 in the second round, nothing is lost -/
